@@ -2,5 +2,6 @@ SPECIFICATION MCSpec
 CONSTANTS
   MaxFrags = 4
   Quick = TRUE
+  CtlText = FALSE
   Layout = FALSE
 INVARIANTS CursorExact PositionExact HtmlExact Coverage TrimFlags LexesCleanly AgreeAtEnd Emit
